@@ -11,11 +11,15 @@ git -C /repo worktree remove --force $WT 2>/dev/null
 git -C /repo worktree add -q --detach $WT HEAD || exit 1
 cd $WT
 demo=$SRC/demo_test.go
-first=$(head -5 $demo | tr -d '\r')
-# package dir: taken from the first comment lines ("package directory" hint) else root
-pkgdir=$(echo "$first" | grep -oE '(\./)?(typed|thrift(/[a-z0-9_/-]+)?|http|json|raw|relay(/[a-z]+)?|tnet|peers|internal/[a-z]+|testutils(/[a-z]+)?|hyperbahn|trand)\b' | head -1)
-pkgdir=${pkgdir:-.}
 pkgline=$(grep -m1 '^package ' $demo | awk '{print $2}')
+case "${pkgline%_test}" in
+  tchannel) pkgdir=. ;;
+  arg2) pkgdir=thrift/arg2 ;;
+  relaytest) pkgdir=relay/relaytest ;;
+  argreader) pkgdir=internal/argreader ;;
+  *) pkgdir=${pkgline%_test} ;;
+esac
+[ -d "$pkgdir" ] || pkgdir=.
 echo "demo package dir: $pkgdir (package $pkgline)"
 cp $demo $pkgdir/zz_seed_demo_test.go
 echo "== demo on pristine tree"; go test -count=1 -vet=off -run 'Seed|seed|Demo|ZZ|Zz' ./$pkgdir 2>&1 | tail -5; clean=${PIPESTATUS[0]}
